@@ -74,7 +74,10 @@ class C20(C.ProgramDiff):
                                  'raise_at': (1 + src.n(4)) if src.rare(1, 6) else 0, 'raise_class': src.n(len(BOOMS)),
                                  # the function builds its terms with atoms of its own (another engine instance, kept
                                  # in a closure) instead of asking the running engine for them
-                                 'own_atoms': src.n(4) == 3})
+                                 'own_atoms': src.n(4) == 3,
+                                 # the function is a bound method of an object nobody else refers to; the arity is passed
+                                 # as third positional argument instead of by keyword
+                                 'bound_method': src.n(5) == 4, 'positional_arity': src.n(3) == 2})
         dyn = []
         if replaced and src.n(3) == 2:
             r = src.pick(replaced)
@@ -217,7 +220,12 @@ class C20(C.ProgramDiff):
                     if r['style'] in ('inferred', 'inferred-wrapped'):
                         yp.register_function(r['name'], fn)
                     elif r['style'] in ('explicit', 'explicit-varargs'):
-                        yp.register_function(r['name'], fn, arity=r['arity'])
+                        if r.get('positional_arity'):
+                            yp.register_function(r['name'], fn, r['arity'])
+                        else:
+                            yp.register_function(r['name'], fn, arity=r['arity'])
+                    elif r.get('positional_arity'):
+                        yp.register_function(r['name'], fn, -1)
                     else:
                         yp.register_function(r['name'], fn, arity=-1)
             before = set(map(id, impl.bound_variables()))
@@ -314,6 +322,11 @@ class C20(C.ProgramDiff):
                 return solutions(args)
             return f
         names = ['a%d' % i for i in range(r['arity'])]
+        if r.get('bound_method') and r['style'] != 'inferred-wrapped':
+            src = 'class Table:\n    def f(%s):\n        return solutions([%s])\n' % (', '.join(['self'] + names), ', '.join(names))
+            ns = {'solutions': solutions}
+            exec(src, ns)
+            return ns['Table']().f          # the only reference to the object is the bound method itself
         src = 'def f(%s):\n    return solutions([%s])\n' % (', '.join(names), ', '.join(names))
         ns = {'solutions': solutions}
         exec(src, ns)
